@@ -305,14 +305,19 @@ impl Sparse<f64> {
     // proportional to b. When the entries of b are so large or so small that those squares
     // would overflow or underflow, b and x are brought to O(1) by an exact power of two
     // (which leaves every iterate unchanged up to that factor) and the result is scaled back.
-    fn rhs_scale( b: &Vector<f64> ) -> f64 {
+    fn rhs_scale( b: &Vector<f64>, x: &Vector<f64> ) -> f64 {
         let mut max: f64 = 0.0;
         for i in 0..b.size() {
             if b[ i ].abs() > max { max = b[ i ].abs(); }
         }
         if max == 0.0 || !max.is_finite() || ( max < 1.0e100 && max > 1.0e-100 ) { return 1.0; }
         let exponent = ( max.log2().floor() as i32 ).clamp( -1000, 1000 );
-        2.0_f64.powi( -exponent )
+        let scale = 2.0_f64.powi( -exponent );
+        // A guess so far from the scale of b that it cannot be carried along is left alone
+        for i in 0..x.size() {
+            if !( x[ i ] * scale ).is_finite() { return 1.0; }
+        }
+        scale
     }
 
     fn solve_scaled<F>( b: &Vector<f64>, x: &mut Vector<f64>, max_iter: usize, scale: f64, solver: F ) -> Result<usize, f64>
@@ -340,7 +345,7 @@ impl Sparse<f64> {
         if b.size() != x.size() { 
             panic!( "Sparse matrix solve_bicg: b.size() != x.size()." ); 
         }
-        let scale = Self::rhs_scale( b );
+        let scale = Self::rhs_scale( b, x );
         if scale != 1.0 {
             return Self::solve_scaled( b, x, max_iter, scale, |bs, xs| self.solve_bicg( bs, xs, max_iter, tol, itol ) );
         }
@@ -411,7 +416,7 @@ impl Sparse<f64> {
         if b.size() != x.size() { 
             panic!( "Sparse matrix solve_bicgstab: b.size() != x.size()." ); 
         }
-        let scale = Self::rhs_scale( b );
+        let scale = Self::rhs_scale( b, x );
         if scale != 1.0 {
             return Self::solve_scaled( b, x, max_iter, scale, |bs, xs| self.solve_bicgstab( bs, xs, max_iter, tol ) );
         }
@@ -482,7 +487,7 @@ impl Sparse<f64> {
         if b.size() != x.size() { 
             panic!( "Sparse matrix solve_cg: b.size() != x.size()." ); 
         }
-        let scale = Self::rhs_scale( b );
+        let scale = Self::rhs_scale( b, x );
         if scale != 1.0 {
             return Self::solve_scaled( b, x, max_iter, scale, |bs, xs| self.solve_cg( bs, xs, max_iter, tol ) );
         }
@@ -537,7 +542,7 @@ impl Sparse<f64> {
         if b.size() != x.size() { 
             panic!( "Sparse matrix solve_qmr: b.size() != x.size()." ); 
         }
-        let scale = Self::rhs_scale( b );
+        let scale = Self::rhs_scale( b, x );
         if scale != 1.0 {
             return Self::solve_scaled( b, x, max_iter, scale, |bs, xs| self.solve_qmr( bs, xs, max_iter, tol ) );
         }
